@@ -1,6 +1,7 @@
 package main
 
 import (
+	"time"
 	stdx509 "crypto/x509"
 	"crypto/x509/pkix"
 	"encoding/asn1"
@@ -40,6 +41,25 @@ func orderSensitiveCerts() [][]byte {
 			if der, _, err := issue(t, nil); err == nil {
 				ders = append(ders, der)
 			}
+		}
+	}
+	// subjects repeating several attribute types at once (any "first repeated thing found in a map" shows up)
+	for v := 0; v < 3; v++ {
+		t := leafTemplate()
+		t.NotBefore = time.Date(2024, 1, 1, 0, 0, 0, 0, time.UTC)
+		t.NotAfter = t.NotBefore.AddDate(0, 6, 0)
+		t.Subject = pkix.Name{CommonName: "example.com", Organization: []string{"Org A", "Org B"}, Country: []string{"US", "DE"}, Locality: []string{"X", "Y"},
+			Province: []string{"P", "Q"}, OrganizationalUnit: []string{"U1", "U2"}, StreetAddress: []string{"S1", "S2"}, PostalCode: []string{"1", "2"}}
+		t.Subject.ExtraNames = []pkix.AttributeTypeAndValue{{Type: asn1.ObjectIdentifier{2, 5, 4, 3}, Value: "example.com"}, {Type: asn1.ObjectIdentifier{2, 5, 4, 3}, Value: "www.example.com"},
+			{Type: asn1.ObjectIdentifier{2, 5, 4, 5}, Value: "1"}, {Type: asn1.ObjectIdentifier{2, 5, 4, 5}, Value: "2"}}
+		if v > 0 {
+			t.Subject.ExtraNames = append(t.Subject.ExtraNames, pkix.AttributeTypeAndValue{Type: asn1.ObjectIdentifier{2, 5, 4, 10}, Value: "Org A"}, pkix.AttributeTypeAndValue{Type: asn1.ObjectIdentifier{2, 5, 4, 10}, Value: "Org C"})
+		}
+		t.PolicyIdentifiers = []asn1.ObjectIdentifier{{2, 23, 140, 1, 2, 2}, {2, 23, 140, 1, 2, 2}, {1, 2, 3}, {1, 2, 3}}
+		t.ExtKeyUsage = []stdx509.ExtKeyUsage{stdx509.ExtKeyUsageServerAuth, stdx509.ExtKeyUsageClientAuth, stdx509.ExtKeyUsageServerAuth}
+		t.DNSNames = []string{"example.com", "example.com", "www.example.com", "www.example.com"}
+		if der, _, err := issue(t, nil); err == nil {
+			ders = append(ders, der)
 		}
 	}
 	// several duplicated extensions
